@@ -1738,25 +1738,25 @@ _COMMON = (" Every executed call is judged by TLC walking spec/Trace.tla over th
            "a mismatch is recorded with its line and the walk goes on); Rust std referees the oracle on the default format (a dispute is exit 2). "
            "Not universal over inputs: constructed hard cases + seeded sampling; see evidence for the counts of this run.")
 LEVEL = {
- "C01": "TLA+ oracle Ieee!CorrectlyRounded on exact BigNat arithmetic (validated against brute force on a toy format by MC_Ieee, against native integers by MC_BigNat) judges every recorded parse::<f32|f64> call: exact halfway expansions per binade and their +-1 perturbations and truncations at the 19/20/768/769/770-digit limits, Eisel-Lemire row straddlers, fast-path limits, overflow/underflow edges, random; complete, partial and with-options API under default, compact, radix+format, compact+radix+format builds." + _COMMON,
+ "C01": "TLA+ oracle Ieee!CorrectlyRounded on exact BigNat arithmetic (validated against brute force on a toy format by MC_Ieee, against native integers by MC_BigNat) judges every recorded parse::<f32|f64> call: exact halfway expansions per binade and their +-1 perturbations and truncations at the 19/20/768/769/770-digit limits, Eisel-Lemire row straddlers, fast-path limits, overflow/underflow edges, fractions of the smallest denormal written with 2/20/45 digits, random; complete, partial and with-options API under default, compact, radix+format, compact+radix+format builds." + _COMMON,
  "C02": "TLA+ predicates RoundTrips / IsShortest (convexity shortcut) / IsClosest, proved equal to their definitions on a toy format by MC_Ieee, judge every recorded write::<f32|f64>: all 2046+254 shorter-interval floats, per-binade patterns, the endpoint family (decimals exactly on a closed interval endpoint, k>=17 exhaustively in quick), powers of ten, random bits; compact builds judged for round trip and <= 17/9 digits." + _COMMON,
  "C03": "TLA+ oracle IntWrite!IntWriteWhy (sign, canonical upper-case digits, no leading zero, FromDigits(out) = |v| in BigNat) on u8/i8 exhaustively for all 35 radices (u16/i16 too in thorough) and r^k-1, r^k, r^k+1, MIN, MAX, 64-bit split values for the wider types; decimal output also equal to Rust Display; returned slice starts at the buffer start. MC_IntWrite: the writer's design (digit count by 4/2/1 digits, fill from the right in 4/2/1-digit chunks, wide values split into zero-padded step-digit parts) on a toy word size, every value of the wide type for 12 radices in thorough: in bounds, filled exactly, canonical, exact; three negative controls." + _COMMON,
- "C04": "TLA+ reference IntParse!IntParseSpec (left-to-right Empty / InvalidDigit(i) / Overflow(i) / Underflow(i), exact BigNat accumulation) judges complete and partial parses of boundary numerals, long zero prefixes, invalid bytes at every position incl. SWAR-window neighbours, all 12 types x 35 radices; MC_IntParse proves on toy widths that the 'unchecked prefix then checked' strategy equals the reference and that overflow_digits+1 breaks it." + _COMMON,
- "C05": "As C01 with FloatExact in any radix / mixed base (CmpScaled via the odd part of the radix): per radix near-halfway strings with 5-140 digits straddling the midpoint, exact halfway expansions for even radices, exponent sweeps over every power-table index, mixed-base hex floats; builds radix and compact+radix+format." + _COMMON,
+ "C04": "TLA+ reference IntParse!IntParseSpec (left-to-right Empty / InvalidDigit(i) / Overflow(i) / Underflow(i), exact BigNat accumulation) judges complete and partial parses of boundary numerals, long zero prefixes, invalid bytes at every position incl. SWAR-window neighbours, every byte value 0..255 at a digit position in every radix, all 12 types x 35 radices; MC_IntParse proves on toy widths that the 'unchecked prefix then checked' strategy equals the reference and that overflow_digits+1 breaks it." + _COMMON,
+ "C05": "As C01 with FloatExact in any radix / mixed base (CmpScaled via the odd part of the radix): per radix near-halfway strings with 5-140 digits straddling the midpoint, exact halfway expansions for even radices, exponent sweeps over every power-table index, fractions of the smallest denormal (underflow boundary), every byte value in mantissa and exponent positions, mixed-base hex floats; builds radix and compact+radix+format." + _COMMON,
  "C06": "TLA+ Ieee!ExactlyEqual(FloatExact(scan of the output), M, e) on the written bytes (no parser of the implementation involved) for radix 2/4/8/16/32 and the mixed formats, every sampled binade, default / forced positional / forced scientific notation, then the implementation's parse-back must return the same bits (relation RoundTripAt)." + _COMMON,
- "C07": "Well-formedness by the TLA+ grammar automaton of the same format, |value(out) - v| < 2048 / 256 ulp by Ieee!WithinUlps on the exact value of the string, integers below 2^p exact; values around r^k for every generic radix; both notations; parse-back accepted." + _COMMON,
+ "C07": "Well-formedness by the TLA+ grammar automaton of the same format, |value(out) - v| < 2048 / 256 ulp by Ieee!WithinUlps on the exact value of the string, integers below 2^p exact; values around r^k and within 2 ulp of n + j/r^k for every generic radix; both notations; parse-back accepted." + _COMMON,
  "C08": "Relation RoundTripAt over recorded episodes {write, parse of the written bytes with options derived from the write options}: accepted in full, and the same bits where ExactBack says so (integers, zeros, infinities, decimal and power-of-two floats without truncation; NaN -> NaN); MC_FloatWrite shows at the design level that the documented layout is accepted by the grammar of the same format with the same digits." + _COMMON,
  "C09": "Contract WriteAbnormal against the bound the code itself reports (FORMATTED_SIZE[_DECIMAL], buffer_size_const): with buflen >= bound the call returns within the bound; shorter buffers return within the buffer or panic; canary bytes intact; a fault (guard page) is an event TLC rejects. Option grid x extreme values x {bound, bound-1, exact length, length-1, 0} x both guard placements, all writer back-ends, facade. For decimal float options the reported bound must also cover Bounds!LongestOutput, the longest output of the documented layout over every exponent and digit count of the type (clause BoundCoversLongest), whether or not such a float was written; MC_Bounds checks the documented formula against that maximum on an option grid (negative control: one byte less exponent room fails), MC_FloatWrite ties the length arithmetic to the laid-out bytes." + _COMMON,
  "C10": "Every parse event of the corpus (junk, random bytes, numbers, radix formats; 14 types; complete, partial, with options, facade) must be ok/err with indices <= length (panic / fault / timeout are recorded events TLC rejects), in release and in a debug-assertions + overflow-checks build, inputs abutting a guard page at either end; MC_Scan / MC_IntParse: the reference automaton is total and a dead state stays dead." + _COMMON,
- "C11": "Relation PartialAgreesAt over episodes {partial, complete, complete on the first n bytes (second phase after seeing n)}; MC_IntParse checks the relation on the reference; inputs end in separators, signs, exponent characters, points, suffix letters and prefixes of special strings." + _COMMON,
+ "C11": "Relation PartialAgreesAt over episodes {partial, complete, complete on the first n bytes (second phase after seeing n)}; MC_IntParse checks the relation on the reference; inputs end in separators, signs, exponent characters, points, suffix letters and prefixes of special strings; every one- and two-byte witness of every flagged format." + _COMMON,
  "C12": "The documented grammar as a finite automaton (Scan!Step) explored exhaustively by TLC for every syntax-flag format of the catalogue (MC_Scan: all control states, all input lengths) and validated against all 222 upstream doctest assertions (MC_Docs); one witness per transition is replayed on the real complete parsers (f32/f64/i32/u64) and judged three-valued (accept with value / reject / unspecified); STANDARD additionally on all strings <= 4 over the number alphabet with Rust FromStr as referee." + _COMMON,
  "C13": "Product of three automata in MC_Scan (format on s, format on s with separators deleted, separator-free counterpart on s) with invariants SepDeletion and NoSepSame over all inputs of all lengths for 45 separator formats; the per-transition witnesses plus long separated components (>= 8 and >= 20 digits) are replayed; relation SepFreeSameAt compares each separator-free input under the format and under its counterpart." + _COMMON,
- "C14": "Verify-form clauses FloatWrite!LayoutClauses (notation vs breaks, max/min counts, configured characters) on every output and relations OptionsRelationAt (digits = default digits rounded half-even / truncated, carry) and TrimRelationAt over episodes {default-digits twin, options, trim twins}; MC_FloatWrite explores the documented pipeline (1.9 M states) and shows the clauses accept it and the grammar reads it back." + _COMMON,
+ "C14": "Verify-form clauses FloatWrite!LayoutClauses (notation vs breaks, max/min counts, configured characters) on every output and relations OptionsRelationAt (digits = default digits rounded half-even / truncated, carry) and TrimRelationAt over episodes {default-digits twin, options, trim twins}, incl. the full product max x min x trim x round mode x breaks on carry / round-down / integral values; MC_FloatWrite explores the documented pipeline (1.9 M states) and shows the clauses accept it and the grammar reads it back." + _COMMON,
  "C15": "FloatParse!SpecialOf (whole input after the sign equals the configured string, case rule, separators only with the flag, never under no_special / None; numeric inputs first) and the writer clauses (NaN unsigned, -inf, signed zero, panic when disabled) on option-string families related by prefix, case flips, XOR-0x20 neighbours of non-letters, extensions, radices where letters are digits." + _COMMON,
  "C16": "Relation AdditiveAt: the same default-API call recorded under every build configuration must give identical results (float output bytes across non-compact builds; compact output must parse back to the same bits in the default build)." + _COMMON,
  "C17": "Relation FacadeEqualsCoreAt (lexical::* vs lexical_core::* on the same call in the same build) and the global clause 'every written byte < 128'." + _COMMON,
  "C18": "Format!FormatValidity / OptionsPunctuationValidity / Options validity and the builder state machine (MC_Builder: getter = last setter, rebuild fixpoint, validity monotone in the feature set) judge run-time builder episodes (sampled 2^18 syntax-flag and 2^13 separator-flag subsets, every byte for each character field, radix fields, setter sequences), the compiled catalogue (format_is_valid / format_error), option builders, and 'invalid format or punctuation yields a configuration error' on all parse entry points." + _COMMON,
- "C19": "Relation LossyAgreesAt (same acceptance, count and error; exact-fast-path class and clearly-outside zero/infinity bit-identical) plus Ieee!WithinOneUlp on every lossy result, on the near-halfway corpora of C01/C05." + _COMMON,
+ "C19": "Relation LossyAgreesAt (same acceptance, count and error; exact-fast-path class and clearly-outside zero/infinity bit-identical) plus Ieee!WithinOneUlp on every lossy result, on the near-halfway corpora of C01/C05 and on 16-19 digit mantissas (no truncation, beyond the exact fast path) dense in the decimal-exponent windows next to the fast path." + _COMMON,
 }
 NOTE = {}
 TECH = {k: "explicit TLA+ specification; TLC bounded models + TLC trace validation of recorded API calls" for k in LEVEL}
